@@ -20,7 +20,9 @@ META = dict(
               "opensmt binary's get-value output",
     level_text="Theorems in Properties_C16.v: accepted decimals denote their exact value for any length and any leading/trailing "
                "zeros (decimal_value), fractions without leading zeros likewise (fraction_value_partial), every TK_NUM/TK_DEC token "
-               "of the lexer is read exactly (lex_num_exact, lex_dec_exact), what the solver prints reads back to the same rational "
+               "of the lexer is read exactly and stored exactly by mkConst (lex_num_exact, lex_dec_exact, token_mkconst_exact, "
+               "get_str_parse_roundtrip), the base-10 repair of normalize reads every fraction exactly (fraction_value_fixed), "
+               "what the solver prints reads back to the same rational "
                "for every rational (print_parse_roundtrip), plus machine-checked counterexamples for the parts of the property that "
                "are false on the faithful model (fraction_value_refuted, accepts_only_wf_refuted, lex_num_refuted, ...). The model "
                "(isIntString, isRealString, stringToRational, normalize/GMP, FastRational(const char*), ArithLogic::mkConst, "
